@@ -221,3 +221,246 @@ func VH_C20_PersistentForest() {
 	}
 	vhReach("persistent-forest-done")
 }
+
+// ---- real containers -------------------------------------------------------
+
+// vhDirectRefs: the slab identifiers a REAL slab references, found by walking
+// its fields (independent of ChildStorables, which the health check and the
+// child-reference query rely on), descending into wrappers, inlined
+// containers and collision groups.
+func vhDirectRefs(s Slab) []SlabID {
+	var out []SlabID
+	switch x := s.(type) {
+	case *ArrayMetaDataSlab:
+		for _, h := range x.childrenHeaders {
+			out = append(out, h.slabID)
+		}
+	case *MapMetaDataSlab:
+		for _, h := range x.childrenHeaders {
+			out = append(out, h.slabID)
+		}
+	case *ArrayDataSlab:
+		for _, e := range x.elements {
+			vhStorableRefsDirect(e, &out)
+		}
+	case *MapDataSlab:
+		vhElementsRefsDirect(x.elements, &out)
+	case *StorableSlab:
+		vhStorableRefsDirect(x.storable, &out)
+	}
+	return out
+}
+
+func vhStorableRefsDirect(st Storable, out *[]SlabID) {
+	st = unwrapStorable(st)
+	switch x := st.(type) {
+	case SlabIDStorable:
+		*out = append(*out, SlabID(x))
+	case *ArrayDataSlab:
+		for _, e := range x.elements {
+			vhStorableRefsDirect(e, out)
+		}
+	case *MapDataSlab:
+		vhElementsRefsDirect(x.elements, out)
+	}
+}
+
+func vhElementsRefsDirect(es elements, out *[]SlabID) {
+	switch x := es.(type) {
+	case *hkeyElements:
+		for _, el := range x.elems {
+			vhElementRefsDirect(el, out)
+		}
+	case *singleElements:
+		for _, el := range x.elems {
+			vhElementRefsDirect(el, out)
+		}
+	}
+}
+
+func vhElementRefsDirect(el element, out *[]SlabID) {
+	switch x := el.(type) {
+	case *singleElement:
+		vhStorableRefsDirect(x.key, out)
+		vhStorableRefsDirect(x.value, out)
+	case *inlineCollisionGroup:
+		vhElementsRefsDirect(x.elements, out)
+	case *externalCollisionGroup:
+		*out = append(*out, x.slabID)
+	}
+}
+
+// vhChildStorableRefs: what the library's own enumeration (ChildStorables,
+// followed the way the health check follows it) yields for a slab.
+func vhChildStorableRefs(s Slab) []SlabID {
+	var out []SlabID
+	cs := s.ChildStorables()
+	for len(cs) > 0 {
+		var next []Storable
+		for _, c := range cs {
+			if id, ok := c.(SlabIDStorable); ok {
+				out = append(out, SlabID(id))
+			}
+			next = append(next, c.ChildStorables()...)
+		}
+		cs = next
+	}
+	return out
+}
+
+func vhSameIDSet(a, b []SlabID) bool {
+	if len(a) != len(b) {
+		return false
+	}
+	for _, x := range a {
+		n, m := 0, 0
+		for _, y := range a {
+			if x == y {
+				n++
+			}
+		}
+		for _, y := range b {
+			if x == y {
+				m++
+			}
+		}
+		if n != m {
+			return false
+		}
+	}
+	return true
+}
+
+// Real containers: a root array or map holding (by choice) a large value
+// (reference to a storable slab), a wrapped large value, an inlined child
+// array that itself holds a large value, an inlined child map with a large
+// value, an external collision group, and enough elements to span several
+// slabs. For every slab the library's child enumeration equals an independent
+// walk over the slab's fields; the health check accepts the storage with the
+// true root; and after deleting ANY referenced slab, adding an unreferenced
+// one, duplicating ANY reference, or re-owning ANY referenced slab it fails.
+//
+//vh:prop C20 C09
+//vh:param extra 0 6
+func VH_C20_RealContainers() {
+	vhSetThreshold(256)
+	storage := vhNewBasicStorage()
+	addr := vhAddr(1)
+	mapRoot := vhChoose("rootkind", 2) == 1
+	var rootID SlabID
+	b := &vDigesterBuilder{levels: 2}
+	var arr *Array
+	var mp *OrderedMap
+	nkey := uint64(1)
+	put := func(v Value) {
+		if mapRoot {
+			k := vKey{id: nkey, size: 4, d: [4]uint64{nkey * 10, nkey, 0, 0}}
+			nkey++
+			_, err := mp.Set(vhCompare, vhHip, k, v)
+			vhAssert(err == nil, "setup: set")
+		} else {
+			vhAssert(arr.Append(v) == nil, "setup: append")
+		}
+	}
+	if mapRoot {
+		mp, _ = NewMap(storage, addr, b, vTypeInfo{id: 42})
+		rootID = mp.SlabID()
+	} else {
+		arr, _ = NewArray(storage, addr, vTypeInfo{id: 42})
+		rootID = arr.SlabID()
+	}
+	put(vElem{tag: 1, size: 10})
+	if vhChoose("big", 2) == 1 {
+		put(vElem{tag: 2, size: 200}) // reference to a storable slab
+	}
+	if vhChoose("wrappedbig", 2) == 1 {
+		put(vWrapValue{inner: vElem{tag: 3, size: 200}, extra: 2})
+	}
+	if vhChoose("childarray", 2) == 1 {
+		c, _ := NewArray(storage, addr, vTypeInfo{id: 43})
+		_ = c.Append(vElem{tag: 4, size: 200}) // the inlined child holds a reference
+		put(c)
+	}
+	if vhChoose("childmap", 2) == 1 {
+		c, _ := NewMap(storage, addr, &vDigesterBuilder{levels: 2}, vTypeInfo{id: 44})
+		_, _ = c.Set(vhCompare, vhHip, vKey{id: 900, size: 4, d: [4]uint64{5, 1, 0, 0}}, vElem{tag: 5, size: 200})
+		put(c)
+	}
+	if mapRoot && vhChoose("extgroup", 2) == 1 {
+		// three keys colliding on the first level with large values: external collision group
+		for j := uint64(0); j < 3; j++ {
+			k := vKey{id: 500 + j, size: 4, d: [4]uint64{7777, j + 1, 0, 0}}
+			_, err := mp.Set(vhCompare, vhHip, k, vElem{tag: 600 + j, size: 90})
+			vhAssert(err == nil, "setup: colliding key")
+		}
+	}
+	for i := 0; i < vhParam("extra", 0); i++ {
+		put(vElem{tag: uint64(700 + i), size: 100}) // grow to several slabs (thorough)
+	}
+	// 1. child enumeration of every slab equals the independent walk
+	var all []SlabID
+	for id, slab := range storage.Slabs {
+		all = append(all, id)
+		vhAssert(vhSameIDSet(vhChildStorableRefs(slab), vhDirectRefs(slab)), "child enumeration equals the independent walk over the slab's fields")
+	}
+	// 2. healthy
+	roots, err := CheckStorageHealth(storage, 1)
+	vhAssert(err == nil, "healthy storage accepted")
+	if err == nil {
+		_, ok := roots[rootID]
+		vhAssert(len(roots) == 1 && ok, "true root set")
+	}
+	// referenced slabs (everything but the root), in a deterministic order
+	var refd []SlabID
+	for _, id := range all {
+		if id != rootID {
+			refd = append(refd, id)
+		}
+	}
+	for i := 1; i < len(refd); i++ {
+		for j := i; j > 0 && refd[j-1].Compare(refd[j]) > 0; j-- {
+			refd[j-1], refd[j] = refd[j], refd[j-1]
+		}
+	}
+	switch vhChoose("corruption", 5) {
+	case 0:
+		vhReach("real-healthy")
+		return
+	case 1: // delete any referenced slab
+		if len(refd) == 0 {
+			return
+		}
+		delete(storage.Slabs, refd[vhChoose("victim", len(refd))])
+	case 2: // an unreferenced slab beyond the expected root count
+		id, _ := storage.GenerateSlabID(addr)
+		storage.Slabs[id] = &StorableSlab{slabID: id, storable: vElem{tag: 9, size: 5}}
+	case 3: // reference any referenced slab from a second place (a new root referencing it)
+		if len(refd) == 0 {
+			return
+		}
+		id, _ := storage.GenerateSlabID(addr)
+		storage.Slabs[id] = &StorableSlab{slabID: id, storable: SlabIDStorable(refd[vhChoose("victim", len(refd))])}
+	case 4: // any referenced slab is owned by a different address
+		if len(refd) == 0 {
+			return
+		}
+		v := refd[vhChoose("victim", len(refd))]
+		slab := storage.Slabs[v]
+		other := SlabID{address: vhAddr(2), index: v.index}
+		switch x := slab.(type) {
+		case *StorableSlab:
+			x.slabID = other
+		case *ArrayDataSlab:
+			x.header.slabID = other
+		case *MapDataSlab:
+			x.header.slabID = other
+		case *ArrayMetaDataSlab:
+			x.header.slabID = other
+		case *MapMetaDataSlab:
+			x.header.slabID = other
+		}
+	}
+	_, err = CheckStorageHealth(storage, 1)
+	vhAssert(err != nil, "corrupted storage rejected")
+	vhReach("real-corrupted")
+}
